@@ -364,3 +364,7 @@ Proof.
     exfalso. destruct (datetime_value_head _ _ Ew) as (Hh & Hn). pose proof (dur_value_startsP _ _ Gz) as Hp.
     destruct z as [|c r]; [congruence|]. cbn [hd] in Hh. rewrite (upper_digit_head c r Hh) in Hp. discriminate.
 Qed.
+
+Lemma dur_grammar_dec_full' t v : dur_value t = Some v -> (List.length t <= 4300)%nat ->
+  dec_dur t = if (td_max <? Z.abs v) || (v <? td_min) then Escape s_overflow else Ok v.
+Proof. intros H Hl. exact (dur_grammar_dec_full t v H (dur_value_ascii t v H) Hl). Qed.
